@@ -10,7 +10,7 @@ from sa.summaries import install_trellis_inverse_pair
 
 GMOD = "transmission.transmission_generator"
 RATES = [("Rate12Data", "etsi.layer2.pdu.rate12_data", 12), ("Rate34Data", "etsi.layer2.pdu.rate34_data", 18), ("Rate1Data", "etsi.layer2.pdu.rate1_data", 24)]
-QUICK_LENGTHS = [0, 1, 5, 6, 7, 9, 10, 11, 12, 13, 17, 18, 19, 20, 23, 24, 25, 35, 36, 37, 47, 48, 49, 60]
+QUICK_LENGTHS = [0, 1, 5, 6, 7, 8, 9, 10, 11, 12, 13, 14, 16, 17, 18, 19, 20, 23, 24, 25, 35, 36, 37, 47, 48, 49, 60]
 
 
 def run(ctx):
@@ -33,7 +33,7 @@ def run(ctx):
                        "an uninterpreted CRC value is assumed non-zero where the constructors test the in-band sentinel (the zero case is C04's known finding)",
                        "CRC engines uninterpreted (C05), trellis as inverse pair (C10), PDUs interpreted for real"]
     ctx.rule("gen/tables", "the generator's (rate, confirmed) -> (octets, octets of last block) table equals the values of the Rate*DataTypes members it selects, and resolve(confirmed,last) returns those members")
-    ctx.rule("gen/roundtrip", "for every payload of the analysed length: exactly one start and one data end; data blocks concatenate to payload + announced pad; CRC-32 matches; confirmed CRC-9 indicators True; preamble countdown exact")
+    ctx.rule("gen/roundtrip", "for every payload of the analysed length: exactly one start and one data end; the pad is smaller than an intermediate block (minimal fragmentation); data blocks concatenate to payload + announced pad; CRC-32 matches; confirmed CRC-9 indicators True; preamble countdown exact")
     # ---- tables
     # the two (rate class, confirmed) -> ... tables: dictionary displays with tuple keys, in the function itself or in the
     # module- / class-level constants it reads
@@ -198,6 +198,13 @@ def one_run(ctx, repo, cname, mod, conf, L, csbk_count):
         for b in data_blocks:
             d = b.attrs.get("data")
             got.extend(list(d.items) if isinstance(d, ABits) else I.frame_bits(d) if hasattr(I, "frame_bits") else _bytes_bits(d))
+        # the fragmentation is the minimal one (ETSI 8.2.0, N_BlockMax): padding never fills a whole intermediate block — otherwise
+        # the header that announces the pad octets the payload really needs is rejected by the generator's own cross-check
+        if n_data > 1:
+            d0 = data_blocks[0].attrs.get("data")
+            per = len(d0.items) // 8 if isinstance(d0, ABits) else None
+            if per is not None and poc >= per:
+                return f"{poc} pad octets in {n_data} blocks although an intermediate block carries {per} octets: one block fewer carries the payload (fragmentation not minimal)"
         want = list(payload.items) + [F(0, 0)] * (8 * poc)
         if I.simp_bits(got) != I.simp_bits(want):
             import os as _os
